@@ -1772,6 +1772,16 @@ int32 parseServerHello(ssl_t *ssl, int32 hsLen, unsigned char **cp,
             return rc;
         }
     }
+    else
+    {
+        /* No extension data: enforce the extensions we require from the
+           server (extended master secret, OCSP stapling, ...). */
+        rc = parseServerHelloExtensions(ssl, hsLen, extData, &c, 0);
+        if (rc < 0)
+        {
+            return rc;
+        }
+    }
 # ifdef USE_TLS_1_3
     /* The downgrade sentinel must be checked whether or not the ServerHello
        carried any extensions. */
